@@ -1244,6 +1244,13 @@ static const uint8_t *unmarshal_one_fiber(
         data = unmarshal_one(st, data, &fiberv, flags + 1);
         janet_asserttype(fiberv, JANET_FIBER, st);
         fiber->child = janet_unwrap_fiber(fiberv);
+        /* The chain of children is walked to its end when a signal is delivered: it must have one */
+        for (JanetFiber *c = fiber->child; c != NULL; c = c->child) {
+            if (c == fiber) {
+                fiber->child = NULL;
+                janet_panic("fiber is its own descendant");
+            }
+        }
     }
 
     /* Get the fiber last value */
